@@ -28,6 +28,9 @@ Next ==
                        <<"ExecAuth",     IsDirect(e) \/ MonExecAuth(e.pre, o, e.ok, e.post)>>,
                        <<"SoftFail",     IsDirect(e) \/ MonSoftFail(e.pre, e.post, e.mktSame, e.vaultSame)>>,
                        <<"ExecOutcome",  IsDirect(e) \/ MonExecOutcome(e.pre, o, e.ok, e.post)>>,
+                       <<"ExecOnce",     IsDirect(e) \/ MonExecOnce(e.pre, o, e.ok)>>,
+                       <<"TerminalKept", IsDirect(e) \/ MonTerminalKept(e.pre, e.post)>>,
+                       <<"DirectTerminal", ~IsDirect(e) \/ MonDirectTerminal(e.pre.st[e.a], e.ok)>>,
                        <<"HardFail",     IsDirect(e) \/ MonHardFail(e.ok, e.pre, e.post, e.worldSame)>> >>)
        /\ Drift(i', IF IsDirect(e) THEN DirectConforms(e) ELSE Conforms(e.pre, o, P, e.ok, e.post), e.op)
        /\ Drift(i', e.reset \/ i' = 1 \/ IsDirect(e) \/ Rec[i' - 1].post = e.pre, "chain")
